@@ -75,6 +75,7 @@ def balance(ctx, rep, key):
         if a and any(MAP(strip_ids(x)) for x in a):
             map_calls[n] = "clear" if cmatch(g.term(n), r"mem::take$") else "mem::" + cpath(g.term(n)).split("::")[-1]
     size_writes = {}
+    map_assigns = set()
     for n in g.nodes:
         if n not in P.live:
             continue
@@ -82,6 +83,15 @@ def balance(ctx, rep, key):
             d = size_delta(g, n, si)
             if d is not None:
                 size_writes.setdefault(n, []).append(d)
+            st = g.stmts(n)[si]
+            # the map overwritten by assignment (`self.cache = BTreeMap::new()`): every resident entry is dropped - a clear
+            if st["k"] == "assign" and st["p"]["proj"] and g.inst(n).kind != "closure":
+                try:
+                    pe_ = strip_ids(g.prov_place(g.inst(n), st["p"]))
+                except Exception:
+                    pe_ = None
+                if pe_ is not None and MAP(pe_):
+                    map_assigns.add(n)
     heads = {h for h, _b in natural_loops(g)}
 
     def settle(pend):
@@ -130,6 +140,8 @@ def balance(ctx, rep, key):
                 pend.add(("cleared", n))
             else:
                 pend.add(("unknown-map-mutation", nm, n))
+        if n in map_assigns:
+            pend.add(("cleared", n))
         for d in size_writes.get(n, []):
             if d[0] == "+":
                 pend.add(("s+", strip_ids(d[1])))
